@@ -61,7 +61,7 @@ SUFFIX = {
  "C08": " Repeated in a build with --cfg fuzzing; runs are also executed on fresh threads and once more from a thread-local destructor while the thread exits.",
  "C09": " Repeated in a build with --cfg fuzzing; zero-sized source error types, zero-sized source types (handles), long zero-block runs.",
  "C10": " == is probed per type and also evaluated on copies at different addresses/alignments; != next to ==; skew pairs that hand out the same number of bytes through different numbers of words; birthday search over all pairs of 4096 unrelated HC-128 generators per run.",
- "C11": " Thirteen ways of writing/reading the image: slice, framed inside a larger document, short-read readers, serde_json::Value, TOML, serde(flatten) / tagged / untagged embeddings, bincode options (varint, big-endian), a non-human-readable self-describing format (direct / flatten / tagged / untagged); far-along counter states.",
+ "C11": " Thirteen ways of writing/reading the image: slice, framed inside a larger document, short-read readers, serde_json::Value, TOML, serde(flatten) / tagged / untagged embeddings, bincode options (varint, big-endian), a non-human-readable self-describing format that honours declared sequence lengths like a length-prefixed format (direct / flatten / tagged / untagged); far-along counter states.",
  "C12": " Also: long-haul histories (2^16 collections), contained set_rounds(0), nested use from inside another generator's timer callback, process history (real-clock JitterRng::new() first), wall-clock seam (real clock flying while the code runs), calendar-date seam (the real-clock constructor runs in 1970, 2038, 2106, 2262, 2554 ...), readings pinned to special values.",
  "C13": " Also steps back between probes, near-constant timers with tolerated steps, up to 300 backward probes, readings pinned to special values (all ones, sign boundaries).",
  "C14": " Also damaged snapshots (must fail, not panic; arrays replaced by strings with multi-byte characters among the damage kinds), runs repeated from a thread-local destructor at thread exit, the calendar-date seam, a logger that refuses the crates' targets, seeding sweeps, contained set_rounds(0), Debug while unwinding / on another thread, far-along ISAAC counters, every second worker with an unwritable stderr (/dev/full), an extra build with rand_jitter std-without-log, and a Miri part: single-threaded histories of all 20 types interpreted by Miri (undefined behaviour that does not panic).",
